@@ -236,6 +236,16 @@ func (w *World) genKind(t *rapid.T, kind string, p *Profile) Op {
 			}
 		}
 		if len(live) > 0 && rapid.Bool().Draw(t, "bound-existing") {
+			// half of the time an ask that currently holds a reservation, if there is one
+			var reserved []string
+			for _, k := range live {
+				if a := w.Last.Apps[s.Keys[k].App]; a != nil && a.Reservations[k] != "" {
+					reserved = append(reserved, k)
+				}
+			}
+			if len(reserved) > 0 && rapid.Bool().Draw(t, "bound-reserved") {
+				live = reserved
+			}
 			k := s.Keys[pick(t, "key", live)]
 			op = k.Spec
 			op.Kind = OpReportBound
@@ -312,6 +322,11 @@ func (w *World) genKind(t *rapid.T, kind string, p *Profile) Op {
 		var ids []string
 		for id, a := range w.Last.Apps {
 			if a.PhTimerArmed {
+				if Excluded("ph-timeout-not-running-mid-swap") && a.State != "Running" && a.State != "Completing" && swapInFlight(a) {
+					// known finding: the timeout does not cancel a replacement that is in flight when the application is not running
+					w.Excl("ph-timeout-not-running-mid-swap")
+					continue
+				}
 				if Excluded("soft-timeout-empty-app") && w.softWithoutRealAsk(id) {
 					// known finding: a Soft application that resumes with nothing left to run is stuck in Accepted
 					w.Excl("soft-timeout-empty-app")
@@ -556,4 +571,13 @@ func (w *World) softWithoutRealAsk(id string) bool {
 		return false
 	}
 	return app.State == "New" || app.State == "Accepted"
+}
+
+func swapInFlight(a *AppSnap) bool {
+	for _, al := range a.Allocs {
+		if al.ReleaseKey != "" {
+			return true
+		}
+	}
+	return false
 }
